@@ -141,6 +141,7 @@ def check (st : SpecState) : Op → Obs → SpecState × Check
     | _ => (st, some "allkeys-failed:")
   | .segCompact, _ => ({ st with segCompacted := true }, none)
   | .reopen, _ | .compact _, _ | .threshold _, _ | .state _, _ | .dump _, _ => (st, none)
+  | .smallSeg _, _ | .hdrSeg _, _ => (st, none)
 
 def firstFailure : SpecState → List (Op × Obs) → Check
   | _, [] => none
